@@ -124,6 +124,19 @@ func observe(c *Case, em types.EntityMap) (got bool, err error) {
 		if !isb {
 			return false, fmt.Errorf("non-boolean result %v", v)
 		}
+		// second observation point: the same expression as the condition of a compiled policy (the authorizer runs the
+		// constant-folded form, which must not decide `in` without the entity store)
+		wp := &xast.Policy{Effect: xast.EffectPermit, Principal: xast.ScopeTypeAll{}, Action: xast.ScopeTypeAll{}, Resource: xast.ScopeTypeAll{},
+			Conditions: []xast.ConditionType{{Condition: xast.ConditionWhen, Body: n}}}
+		wps := cedar.NewPolicySet()
+		wps.Add("p", cedar.NewPolicyFromAST((*pubast.Policy)(wp)))
+		dec, diag := cedar.Authorize(wps, em, types.Request{Principal: other, Action: other, Resource: other, Context: types.Record{}})
+		if len(diag.Errors) > 0 {
+			return false, fmt.Errorf("authorize error for `when { e }`: %v", diag.Errors[0].Message)
+		}
+		if (dec == cedar.Allow) != bool(b) {
+			return false, fmt.Errorf("x/exp/eval.Eval gives %v but cedar.Authorize of `permit when { e }` decides %v", b, dec)
+		}
 		return bool(b), nil
 	}
 	// scope forms through the authorizer
